@@ -14,6 +14,7 @@ import json
 from hypothesis import strategies as st
 
 from gen import subjects as S
+from gen.subjects import pick, picks
 from harness import core
 from oracle import markmodel as mm
 from props.c05 import Clock
@@ -259,7 +260,7 @@ near_spec = st.builds(lambda k, a, b: {"kind": k, "a": a, "b": b}, st.sampled_fr
 
 @st.composite
 def a_case(draw):
-    which = draw(st.sampled_from(["sdo"] * 6 + ["file21"] * 2 + ["od20"] * 2))
+    which = pick(draw, ["sdo"] * 6 + ["file21"] * 2 + ["od20"] * 2)
     if which == "sdo":
         doc = draw(S.selector_subject())
     elif which == "file21":
@@ -267,7 +268,7 @@ def a_case(draw):
     else:
         doc = draw(S.observed_data20())
     version = "2.1" if doc.get("spec_version") == "2.1" else "2.0"
-    form = draw(st.sampled_from(["object", "dict"]))
+    form = pick(draw, ["object", "dict"])
     near = draw(st.lists(near_spec, min_size=2, max_size=6))
     return {"version": version, "form": form, "subject": doc, "near": near}
 
@@ -297,8 +298,8 @@ def run(ctx):
         ctx.notes["near_misses_checked"] = ctx.notes.get("near_misses_checked", 0) + info["counts"]["near"]
         ctx.handle(case, fails)
 
-    core.run_given(ctx, a_case(), body, ctx.n(480, 4500), label="c08-subjects")
-    if not ctx.violations:
+    core.run_given(ctx, a_case(), body, ctx.n(480, 3500), label="c08-subjects")
+    if not ctx.violations and ctx.evaluations >= 300:
         need = ["path:" + f for f in mm.QUESTIONED + ("plain",)] + ["near:" + k for k in mm.NEAR_KINDS] + \
                ["form:object", "form:dict", "version:2.0", "version:2.1", "type:file", "type:observed-data", "type:indicator"]
         for k in need:
